@@ -1086,10 +1086,26 @@ class Engine:
             st = self.fork_exc(st, inn, 'KeyError', node)
             if st.dead:
                 return []
-            r = v.d[keys[-1]]
-            for k in reversed(keys[:-1]):
-                r = v_ite(v_eq(i, self.lift_key(k)), v.d[k], r)
-            return [(st, r)]
+            try:
+                r = v.d[keys[-1]]
+                for k in reversed(keys[:-1]):
+                    r = v_ite(v_eq(i, self.lift_key(k)), v.d[k], r)
+                return [(st, r)]
+            except Unsupported:
+                if self.pure:
+                    raise
+                # values that cannot be merged into one term (functions, objects): one path per key
+                res = []
+                rest = st
+                for k in keys:
+                    hit = simp(v_eq(i, self.lift_key(k)))
+                    s_k = rest.copy()
+                    s_k.assume(to_bool_term(hit))
+                    if self.feasible(s_k):
+                        res.append((s_k, v.d[k]))
+                    rest = rest.copy()
+                    rest.assume(to_bool_term(b_not(hit)))
+                return res
         if isinstance(v, Opt):
             st = self.fork_exc(st, b_not(v.isnone), 'TypeError', node)
             if st.dead:
